@@ -193,7 +193,7 @@ func (c *TCPConn) Write(b []byte) (int, error) {
 	if t := vs.Self(); t != nil {
 		name = t.Name
 	}
-	w.stepCtr++
+	w.stepCtr = vs.StepNow()
 	if (c.peerClosed || c.peerReset) && c.FailWrites {
 		if vs.Choose("writefail", []int8{0, 1}) == 1 {
 			c.Out = append(c.Out, WriteRec{Data: cp, Thread: name, Step: w.stepCtr, Failed: true})
